@@ -122,12 +122,20 @@ impl LookupRequest<VisualAttributes, VisualObservationAttributes> for VisualSort
     ) -> bool {
         match self {
             VisualSortLookup::IdleLookup(scene_id) => {
+                // idle = alive (not expired, whether or not already collected) and not updated
+                // in the current epoch of its scene
                 *scene_id == attributes.scene_id
                     && attributes.last_updated_epoch
                         != attributes
                             .opts
                             .current_epoch_with_scene(attributes.scene_id)
                             .unwrap()
+                    && !matches!(
+                        attributes
+                            .opts
+                            .baked(attributes.scene_id, attributes.last_updated_epoch),
+                        Ok(TrackStatus::Wasted)
+                    )
             }
         }
     }
